@@ -16,7 +16,8 @@ ObsOK(obs, CC2, CT2, I2) ==
     /\ {obs.classes[i].cls : i \in 1..Len(obs.classes)} \in {Classes, Classes \ {"L"}}      \* L exists once it has been defined
     /\ \A i \in 1..Len(obs.classes) : ClassObsOK(obs.classes[i], CC2, CT2)
     /\ Len(obs.inst) = Len(I2)
-    /\ \A i \in 1..Len(I2) : obs.inst[i].tag = I2[i].tag /\ obs.inst[i].comps = I2[i].comps /\ obs.inst[i].cls = I2[i].cls
+    \* (-98: the driver has not looked at this instance's tag yet - it does so after a later change of a class default)
+    /\ \A i \in 1..Len(I2) : obs.inst[i].tag \in {I2[i].tag, -98} /\ obs.inst[i].comps = I2[i].comps /\ obs.inst[i].cls = I2[i].cls
     \* the instance-level API (agent[T], get_component, has_component, len, in): growth beyond C20's claim, same definitions
     /\ \A i \in 1..Len(I2) : I2[i].cls # "Environment" => obs.inst[i].len = Len(I2[i].comps)   \* len(environment) counts its agents
     /\ \A i \in 1..Len(I2) : \A k \in 1..Len(obs.inst[i].api) :
